@@ -701,9 +701,10 @@ class Tensor(object):
 
         if not isinstance(other, Tensor):  # A scalar
             result = self.clone()
-            if isinstance(other, torch.Tensor):  # Keep a torch scalar attached
-                factor = torch.abs(other) ** (1 / self.dim())
-                sign = torch.sign(other)
+            if isinstance(other, torch.Tensor):
+                # Keep a torch scalar attached (|c|^(1/N) is not differentiable at 0: scale one core)
+                result.cores[0] = result.cores[0] * other
+                return result
             else:
                 factor = np.abs(other) ** (1 / self.dim())
                 sign = np.sign(other)
